@@ -25,6 +25,7 @@ PatMatches(p, name) ==
     [] p.k = "prefix" -> Len(name) >= Len(p.lit) /\ SubSeq(name, 1, Len(p.lit)) = p.lit
     [] p.k = "suffix" -> Len(name) >= Len(p.lit) /\ SubSeq(name, Len(name) - Len(p.lit) + 1, Len(name)) = p.lit
     [] p.k = "exact" -> name = p.lit
+    [] p.k \in {"anystart", "anyopt", "anystar", "anylook"} -> TRUE     \* patterns every name matches, possibly with an empty match
     [] OTHER -> FALSE
 
 \* index of the first section that is usable and matches, 0 if none (the default applies)
